@@ -1,0 +1,19 @@
+//go:build verif
+
+package types
+
+// Lemma harnesses for the goverif VC generator (/verif): real Go that calls the real conversion
+// functions; verified against their contracts, never executed.
+
+func verifLemmaIntRoundTrip(v int) (int, error) {
+	s, _ := goIntegerRecast(v, String)
+	r, err := goStringRecast(s.(string), Integer)
+	return r.(int), err
+}
+
+func verifLemmaFloatRoundTrip(f float64) (float64, error) {
+	s, _ := goFloatRecast(f, String)
+	r, err := goStringRecast(s.(string), Number)
+	return r.(float64), err
+}
+
